@@ -24,14 +24,14 @@ PROPS = {
             'expect': ['gen_hasref:trait LinearScaledUnit::ratio', 'gen_hasref:trait HasRefUnit::equiv_amount',
                        'gen_hasref:trait HasRefUnit::convert', 'gen_hasref:lemma_C01_L1_requested_unit',
                        'gen_hasref:lemma_C01_L2_same_unit_identity', 'gen_hasref:lemma_C01_L3_equiv_amount_is_converted_amount', 'lemmas_m1_f64:lemma_C01_L4_f64_converted_magnitude']},
-    'C02': {'level': 'proof', 'quick': ['gen_hasref', 'lemmas_m1_f64', 'lemmas_m1_dec'] + TYPES_REF + ['kani_q_f64:m0'] + ['kani_q_f64:cops', 'kani_astro_f64:cops', 'kani_fix_f64:cops'], 'thorough': TYPES_FIX,
+    'C02': {'level': 'proof', 'quick': ['gen_hasref', 'lemmas_m1_f64', 'lemmas_m1_dec'] + TYPES_REF + ['kani_q_f64:m0'] + ['kani_q_f64:cops', 'kani_astro_f64:cops', 'kani_fix_f64:cops'] + ['kani_q_f64:total', 'kani_astro_f64:total'], 'thorough': TYPES_FIX,
             'expect': ['gen_hasref:trait HasRefUnit::eq', 'gen_hasref:trait HasRefUnit::partial_cmp',
                        'gen_hasref:lemma_C02_L3_eq_symmetric', 'gen_hasref:lemma_C02_L3_cmp_antisymmetric',
                        'gen_hasref:lemma_C02_L3_cmp_equal_iff_eq', 'gen_hasref:lemma_C02_L1_same_unit_is_amount_comparison', 'lemmas_m1_f64:lemma_C02_L2_f64_physical_order']},
     'C03': {'level': 'proof', 'quick': ['gen_hasref', 'lemmas_m1_f64', 'lemmas_m1_dec'] + TYPES_REF + ['kani_q_f64:cops', 'kani_astro_f64:cops', 'kani_fix_f64:cops'], 'thorough': TYPES_FIX,
             'expect': ['gen_hasref:trait HasRefUnit::add', 'gen_hasref:trait HasRefUnit::sub', 'gen_hasref:trait HasRefUnit::div',
                        'gen_hasref:lemma_C03_same_unit_is_amount_arithmetic', 'gen_hasref:lemma_C03_result_in_left_unit', 'lemmas_m1_f64:lemma_C03_f64_sum_magnitude', 'lemmas_m1_f64:lemma_C03_f64_ratio_magnitude']},
-    'C04': {'level': 'proof', 'quick': ['gen_hasref', 'lemmas_m1_f64', 'lemmas_m1_dec'] + TYPES_REF + ['kani_q_f64:cderived', 'kani_astro_f64:cderived', 'kani_fix_f64:cderived'], 'thorough': TYPES_FIX,
+    'C04': {'level': 'proof', 'quick': ['gen_hasref', 'lemmas_m1_f64', 'lemmas_m1_dec'] + TYPES_REF + ['kani_q_f64:cderived', 'kani_astro_f64:cderived', 'kani_fix_f64:cderived'] + ['kani_q_f64:ufs', 'kani_q_f64:fit', 'kani_astro_f64:ufs', 'kani_astro_f64:fit'], 'thorough': TYPES_FIX,
             'expect': ['gen_hasref:trait HasRefUnit::_fit', 'lemmas_m1_f64:lemma_C04_f64_product_magnitude_fitted', 'lemmas_m1_f64:lemma_C04_f64_quotient_magnitude_natural',
                        'lemmas_m1_f64:lemma_C04_roundtrip_magnitude']},
     'C05': {'level': 'proof', 'quick': ['gen_hasref'] + TYPES_REF + ['kani_q_f64:ufs', 'kani_q_f64:fit', 'kani_q_f64:m0', 'kani_astro_f64:ufs', 'kani_astro_f64:fit'],
@@ -48,7 +48,7 @@ PROPS = {
             'expect': ['gen_hasref:impl Quantity for AmountT::new', 'gen_hasref:impl Quantity for AmountT::amount',
                        'gen_hasref:impl Quantity for AmountT::unit', 'gen_hasref:impl LinearScaledUnit for One::scale',
                        'gen_hasref:impl Mul < One > for AmountT::mul', 'gen_hasref:impl Mul < AmountT > for One::mul']},
-    'C09': {'level': 'proof', 'quick': TYPES_REF + ['kani_q_f64:reg', 'kani_q_f64:ufs', 'kani_q_f64:sym', 'kani_q_f64:syma', 'kani_astro_f64:syma', 'kani_astro_f64:reg', 'kani_astro_f64:ufs', 'kani_astro_f64:sym',
+    'C09': {'level': 'proof', 'quick': TYPES_REF + ['kani_q_f64:symx', 'kani_fix_f64:symx', 'kani_q_f64:reg', 'kani_q_f64:ufs', 'kani_q_f64:sym', 'kani_q_f64:syma', 'kani_astro_f64:syma', 'kani_astro_f64:reg', 'kani_astro_f64:ufs', 'kani_astro_f64:sym',
                                          'kani_fix_f64:reg', 'kani_fix_f64:ufs', 'kani_fix_f64:sym'],
             'thorough': TYPES_FIX + ['kani_q_dec:reg', 'kani_q_dec:ufs', 'kani_q_dec:sym', 'kani_q_f64:symc'],
             'expect': ['kani_q_f64:reg::k_reg_Length', 'kani_q_f64:reg::k_asqty_Length', 'kani_q_f64:ufs::k_ufs_Length',
@@ -77,7 +77,7 @@ PROPS = {
                        'gen_hasref_decok:lemma_C18_dec_derived_quotient_fitted_total'],
             'assumptions': ['A-fpdec-range (decimal half, contracts/lemmas_c18_dec.vrs ax_fpdec_*): an fpdec operation whose operands and exact result are at most 1e20 in absolute value, divisor non-zero, does not panic - read off fpdec 0.11 (i128 coefficient, at most 18 fractional digits), not verified',
                             'decimal half: exec-level (every operation performed is within the stated precondition) for the generic HasRefUnit methods (equiv_amount, convert, eq, partial_cmp, add, sub, div, _fit) and LinearScaledUnit::ratio; for the generated derived operators only the operations of their Layer-A normal form are examined (spec level: natural-unit branch proved, fitted-unit branch refuted - findings F4, F5); the rate operators are decided for the f64 configuration only']},
-    'C13': {'level': 'proof', 'quick': ['gen_quantity', 'lemmas_m1_f64'] + TYPES_Q + ['kani_q_f64:crt', 'kani_astro_f64:crt', 'kani_fix_f64:crt'], 'thorough': TYPES_FIX,
+    'C13': {'level': 'proof', 'quick': ['gen_quantity', 'lemmas_m1_f64'] + TYPES_Q + ['kani_q_f64:crt', 'kani_astro_f64:crt', 'kani_fix_f64:crt'] + ['kani_q_f64:reg'], 'thorough': TYPES_FIX,
             'expect': ['gen_quantity:impl Rate::new', 'gen_quantity:impl Rate::from_qty_vals', 'gen_quantity:impl Rate::term_amount',
                        'gen_quantity:impl Rate::term_unit', 'gen_quantity:impl Rate::per_unit_multiple', 'gen_quantity:impl Rate::per_unit',
                        'gen_quantity:impl Rate::reciprocal', 'gen_quantity:impl Mul<PQ> for Rate::mul', 'gen_quantity:trait Unit::unit_as_qty',
